@@ -475,7 +475,10 @@ func init() {
 				n := 0
 				cm.Walk(b.AsNode(), &cm.WalkOptions{Post: func(c *cm.Cursor) bool { n++; return n < 3 }})
 				cm.Walk(b.AsNode(), &cm.WalkOptions{
-					Pre:  func(c *cm.Cursor) bool { fmt.Fprintf(&sb, "pre %s %d;", tree.KindName(c.Node()), c.Index()); return true },
+					Pre: func(c *cm.Cursor) bool {
+						fmt.Fprintf(&sb, "pre %s %d;", tree.KindName(c.Node()), c.Index())
+						return true
+					},
 					Post: func(c *cm.Cursor) bool { fmt.Fprintf(&sb, "post %s;", tree.KindName(c.Node())); return true },
 				})
 			}
